@@ -230,7 +230,21 @@ def normalise_facts(facts: List[Tuple[ast.expr, bool]]) -> List[Tuple[ast.expr, 
         if isinstance(t, ast.BoolOp):
             if (isinstance(t.op, ast.And) and pol) or (isinstance(t.op, ast.Or) and not pol):
                 todo.extend((v, pol) for v in t.values)
+        # a comparison is also reported in its complemented spelling: (`a != b`, False) is the fact (`a == b`, True), and so on - a rule that looks
+        # for one spelling finds it whichever way round the source wrote the test (`if a != b: return` guard or `if a == b:` block)
+        if isinstance(t, ast.Compare) and len(t.ops) == 1 and type(t.ops[0]) in _COMPLEMENT:
+            c = ast.Compare(left=t.left, ops=[_COMPLEMENT[type(t.ops[0])]()], comparators=t.comparators)
+            ast.copy_location(c, t)
+            c._parent = getattr(t, '_parent', None)  # type: ignore[attr-defined]
+            key2 = (id(t), 'complement')
+            if key2 not in seen:
+                seen.add(key2)  # type: ignore[arg-type]
+                out.append((c, not pol))
     return out
+
+
+_COMPLEMENT = {ast.Eq: ast.NotEq, ast.NotEq: ast.Eq, ast.Is: ast.IsNot, ast.IsNot: ast.Is, ast.In: ast.NotIn, ast.NotIn: ast.In,
+               ast.Lt: ast.GtE, ast.GtE: ast.Lt, ast.Gt: ast.LtE, ast.LtE: ast.Gt}
 
 
 def if_branches(n: ast.If) -> Tuple[ast.expr, List[ast.stmt], List[ast.stmt]]:
